@@ -323,6 +323,75 @@ def c12_oracle(case, obs):
                     out.append(("connect %d (same host %d) was refused at step %d although listener %d is bound since "
                                 "step %d and is never dropped" % (cid, h, k, lid, l["from"]), None))
                     break
+    # ---- an abandoned connect resets the peer that had already accepted it (fix 48e101e) ---------------
+    # per-step sets of what each program holds
+    hold_live, hold_pend = [], []
+    lv = {h: set() for h in range(n)}
+    pd = {h: set() for h in range(n)}
+    for k, st in enumerate(case["steps"]):
+        for h in range(n):
+            for i, cmd in enumerate(st.get("hosts", {}).get(str(h), [])):
+                r = res.get((k, h, i))
+                nm = cmd[0]
+                if nm in ("connect", "connect_t"):
+                    if r == "pending":
+                        pd[h].add(cmd[1])
+                    elif ok(r, 3):
+                        lv[h].add(cmd[1])
+                elif nm == "poll" and cmd[1] in pd[h] and r != "pending":
+                    pd[h].discard(cmd[1])
+                    if ok(r, 3):
+                        lv[h].add(cmd[1])
+                elif nm == "cancel" and r == "none":
+                    pd[h].discard(cmd[1])
+                elif nm == "accept" and ok(r, 4):
+                    lv[h].add(cmd[2])
+                elif nm == "drop" and r == "none":
+                    lv[h].discard(cmd[1])
+        for b in bg_by_step.get(k, []):
+            if ok(b[3], 4):
+                lv[b[1]].add(b[2])
+        hold_live.append({h: set(v) for h, v in lv.items()})
+        hold_pend.append({h: set(v) for h, v in pd.items()})
+    for cid, c in conn.items():
+        if c["done"] is None or ok(c["done"][1], 3) or c["done"][1] == ["err", "ConnectionRefused"]:
+            continue
+        kc = c["done"][0]                      # cancelled, or timed out (the future was dropped) at step kc
+        if not isinstance(c["dst"], dict) or cid not in syn_of:
+            continue
+        src, sport, dport, a, b, k0 = syn_of[cid]
+        dst = b if src == a else a
+        if (src, dst) in cut_at.get(kc, set()) or any(p >= kc for p in parts.get((a, b), [])):
+            continue
+        acc = [x for x in accepts if x["host"] == dst and x["peer"] == [src, sport] and x["step"] <= kc]
+        if not acc:
+            continue
+        key = [src, "rst", 0, 0, sport, dport]
+        seen = [k for k in range(kc, len(obs["post"]))
+                if any(list(m) == key for (a2, b2, msgs) in obs["post"][k][0] if (a2, b2) == (a, b) for m in msgs)]
+        if seen and seen[-1] == len(obs["post"]) - 1:
+            continue                           # the RST is still parked on the held link
+        arrive = (seen[-1] + 1) if seen else kc + 1
+        sid = acc[0]["sid"]
+        for k in range(arrive + 1, len(obs["post"])):
+            if sid not in hold_live[k][dst]:
+                break
+            limit = len(hold_live[k][dst]) + len(hold_pend[k][dst]) - 1
+            if obs["post"][k][1][dst][1] > limit:
+                out.append(("connect %d (host %d port %d) was accepted by host %d and then abandoned at step %d; its RST "
+                            "%s, but after step %d host %d still counts the accepted stream %d as established (%d entries, "
+                            "%d other sockets held)" % (cid, src, sport, dst, kc,
+                                                         "arrived at step %d" % arrive if seen else "was never put on the link",
+                                                         k, dst, sid, obs["post"][k][1][dst][1], limit), None))
+                break
+        for k, st in enumerate(case["steps"]):
+            if k <= arrive:
+                continue
+            for i, cmd in enumerate(st.get("hosts", {}).get(str(dst), [])):
+                if cmd[0] == "read" and cmd[1] == sid and res.get((k, dst, i)) == "pending":
+                    out.append(("connect %d was accepted by host %d (stream %d) and abandoned at step %d, but a read at step "
+                                "%d still waits instead of seeing the reset" % (cid, dst, sid, kc, k), None))
+                    break
     # ---- a task parked in accept() is woken when a request is queued ---------------------------------------
     bg_issue = {}
     for k, st in enumerate(case["steps"]):
@@ -490,7 +559,7 @@ class Spec(PropSpec):
             if r < 2:
                 cases.append(F.gen_handshake(ctx.rng))
             elif r < 3:
-                cases.append(F.gen_parked_accepts(ctx.rng))
+                cases.append(F.gen_parked_accepts(ctx.rng) if (i // 10) % 2 else F.gen_abandon(ctx.rng))
             elif r < 4:
                 cases.append(F.gen_partition(ctx.rng))
             elif r < 5:
